@@ -200,3 +200,38 @@ Proof.
 Qed.
 Lemma filter_len_le : forall A (f : A -> bool) l, length (filter f l) <= length l.
 Proof. induction l; simpl; [lia|]. destruct (f a); simpl; lia. Qed.
+
+(* ---- the stable insertion sort of classChanged ------------------------------------------------- *)
+Lemma insert_by_In : forall f x l y, In y (insert_by f x l) <-> y = x \/ In y l.
+Proof.
+  induction l as [|a r IH]; intros y; simpl.
+  - split; [intros [H|[]]; auto | intros [H|[]]; auto].
+  - destruct (Nat.leb (f x) (f a)); simpl; [split; intros [H|H]; auto|].
+    rewrite IH. split; intros H; tauto.
+Qed.
+Lemma sort_by_In : forall f l y, In y (sort_by f l) <-> In y l.
+Proof.
+  induction l as [|a r IH]; intros y; simpl; [tauto|].
+  rewrite insert_by_In, IH. split; intros [H|H]; auto.
+Qed.
+Fixpoint sortedf (f : nat -> nat) (l : list nat) : Prop :=
+  match l with
+  | [] => True
+  | x :: r => (forall y, In y r -> f x <= f y) /\ sortedf f r
+  end.
+Lemma insert_by_sorted : forall f x l, sortedf f l -> sortedf f (insert_by f x l).
+Proof.
+  induction l as [|a r IH]; intros H; simpl; [split; [intros y []| exact I]|].
+  destruct H as [Ha Hr]. destruct (Nat.leb (f x) (f a)) eqn:E.
+  - apply Nat.leb_le in E. simpl. split; [|split; assumption].
+    intros y [<-|Hy]; [assumption|]. specialize (Ha y Hy). lia.
+  - apply Nat.leb_gt in E. simpl. split; [|apply IH; assumption].
+    intros y Hy. apply insert_by_In in Hy. destruct Hy as [->|Hy]; [lia | apply Ha; assumption].
+Qed.
+Lemma sort_by_sorted : forall f l, sortedf f (sort_by f l).
+Proof. induction l as [|a r IH]; simpl; [exact I | apply insert_by_sorted; assumption]. Qed.
+Lemma filter_nil : forall A (f : A -> bool) l, (forall x, In x l -> f x = false) -> filter f l = [].
+Proof.
+  induction l as [|a r IH]; intros H; simpl; [reflexivity|].
+  rewrite (H a (or_introl eq_refl)). apply IH. intros x Hx. apply H. right. assumption.
+Qed.
